@@ -112,6 +112,7 @@ def check_run(c, obs):
         return "bar construction raised", {}
     length = F(m[0], m[1]) if m[1] else F(0)
     entries = []          # (exact length or None for unknown, value arg, content)
+    fcur = 0.0            # the documented float accounting, replayed: current += 1.0 / value on accept, -= on removal
     for i, op in enumerate(ops):
         st = obs[i]
         t = op[0]
@@ -129,12 +130,14 @@ def check_run(c, obs):
                 varg = op[2] if t == "place" else op[1]
                 cont = [["C", 4], ["E", 4]] if t == "place" else None
             want = (tot + 1 / ex <= length) or length == 0
+            fstep = 1.0 / float(varg)
             if res is not want:
                 return ("placement %s although the exact total %s + %s %s the bar length %s" %
                         ("refused" if want else "accepted", tot, 1 / ex, "fits" if want else "exceeds", length)), \
-                       {"kind": "accept", "want": want, "tot": tot, "step": 1 / ex, "length": length}
+                       {"kind": "accept", "want": want, "tot": tot, "step": 1 / ex, "length": length,
+                        "float_overshoot": fcur + fstep > float(length)}
             if res:
-                entries.append((1 / ex, varg, cont))
+                entries.append((1 / ex, varg, cont)); fcur += fstep
         elif t == "remove_last":
             if not entries:
                 if not isinstance(st, Err):
@@ -143,6 +146,7 @@ def check_run(c, obs):
             if isinstance(st, Err):
                 return "remove-last raised", {}
             res, bar = st
+            fcur -= 1.0 / float(entries[-1][1])
             entries.pop()
         bar = st[1]
         cur, blen, full, space, ents, meter, key = bar
@@ -212,6 +216,6 @@ def _float_fill(c, obs):
     if not r or r[1].get("kind") != "accept":
         return False
     i = r[1]
-    return i["want"] is True and i["tot"] + i["step"] == i["length"]
+    return i["want"] is True and i["tot"] + i["step"] == i["length"] and i["float_overshoot"]
 
 KNOWN = {"C13-float-exact-fill": _float_fill}
